@@ -116,6 +116,32 @@ func badType(t *rapid.T, rule string, p *model.Package, env *model.Env) *model.T
 			}
 		}
 		return nil
+	case "map-key-through-generic":
+		// the key type is a type parameter that a non-primitive type reaches through 1-3 levels of
+		// generic definitions, each valid on its own
+		var rec *model.Def
+		for _, d := range p.Defs {
+			if d.Kind == model.DRecord && len(d.TypeParams) == 0 {
+				rec = d
+			}
+		}
+		if rec == nil || p.Find("VKeyMap") != nil {
+			return nil
+		}
+		ns := p.Namespace
+		p.Defs = append(p.Defs,
+			&model.Def{Kind: model.DAlias, Name: "VKeyMap", TypeParams: []string{"K", "V"}, Type: model.Map(model.Param("K"), model.Param("V"))},
+			&model.Def{Kind: model.DRecord, Name: "VKeyIndex", TypeParams: []string{"T"}, Fields: []model.Field{{Name: "entries", Type: model.Ref(ns, "VKeyMap", model.Param("T"), model.Prim("int32"))}}},
+			&model.Def{Kind: model.DAlias, Name: "VKeyOuter", TypeParams: []string{"T"}, Type: model.Vector(model.Ref(ns, "VKeyIndex", model.Param("T")))})
+		key := model.Ref(ns, rec.Name)
+		switch rapid.IntRange(1, 3).Draw(t, "keyLevels") {
+		case 1:
+			return model.Ref(ns, "VKeyMap", key, model.Prim("string"))
+		case 2:
+			return model.Ref(ns, "VKeyIndex", key)
+		default:
+			return model.Ref(ns, "VKeyOuter", key)
+		}
 	case "map-key-named-enum":
 		for _, d := range p.Defs {
 			if (d.Kind == model.DEnum || d.Kind == model.DFlags) && len(d.TypeParams) == 0 {
@@ -201,7 +227,7 @@ func wrapType(t *rapid.T, bad *model.Type, p *model.Package, isStream bool) (*mo
 
 var typeRules = []string{"unknown-type", "unknown-namespace", "unimported-namespace", "generic-arity-extra", "generic-arity-missing", "union-null-not-first", "union-single-null",
 	"union-duplicate-case", "union-nested", "union-duplicate-tag", "union-bad-tag", "union-untaggable", "map-key-vector", "map-key-optional",
-	"map-key-named-record", "map-key-named-enum", "map-key-alias-of-vector", "array-mixed-dims", "array-duplicate-dim", "array-bad-dim-name", "stream-nested"}
+	"map-key-named-record", "map-key-named-enum", "map-key-alias-of-vector", "map-key-through-generic", "array-mixed-dims", "array-duplicate-dim", "array-bad-dim-name", "stream-nested"}
 
 var defRules = []string{"duplicate-type", "duplicate-field", "duplicate-step", "duplicate-enum-symbol", "duplicate-computed-field", "bad-type-name", "bad-field-name", "bad-step-name",
 	"bad-enum-symbol", "bad-type-param-name", "cycle-direct", "cycle-mutual", "cycle-alias", "unused-type-param", "enum-duplicate-value", "enum-out-of-range", "enum-bad-base",
